@@ -63,6 +63,15 @@ CLAIMED.update({
                 note="The schedule dimension is covered only as far as the walk configurations and the payload-driven match sets generate it (no arbitrary worklist permutations). Skeletons of 6-7 ops; 4 symbolic payloads quick, 6 thorough; payload range 0..4."),
 })
 
+CLAIMED.update({
+    "C13": dict(cat="translation_validation", design="DESIGN.md §4 C13",
+                text="Translation validation (M3): the dce pass, the pattern-based dce() and canonicalize (region_dce as post-walk) run on a program family mixing pure, effectful (external calls, stores), unknown (test.op), unregistered and symbol ops with unused results, dead cycles through block arguments, unreachable blocks, bottom-tested loops and nested scf.if; source and result run in the reference interpreter on SYMBOLIC arguments with an effect trace and z3 decides equality of results, final memory and effect traces for all inputs. The structural post-condition (nothing removable/unreachable left) is an auxiliary concrete check.",
+                note="The pass's decisions do not depend on data, so the solver's dimension is the program inputs only; shapes are an explicit family of 10 programs x 3 passes. Trusted: vx/refprog.py effect model."),
+    "C16": dict(cat="translation_validation", design="DESIGN.md §4 C16",
+                text="Symbolic translation validation (M3): convert-scf-to-cf, scf-for-loop-unroll/-range-folding/-flatten, licm and control-flow-hoist (and two pipelines) run on loop/branch skeletons whose bounds, steps, folded constants and initial values are SYMBOLIC (function arguments, or arith.constant payloads inside the IR on which the pass forks); source and result run in the reference interpreter forking on loop exits (trip count <= K) and z3 decides refinement of results and effect traces, zero-trip and negative ranges included.",
+                note="K = 3 quick / 5 thorough; bounds in small boxes. lower-affine and desymref are not covered (no reference semantics built for affine/symref): stated gap. Trusted: vx/refprog.py."),
+})
+
 NOT_APPLICABLE = {
     "C05": "custom assembly formats: the quantifier is over ~80 dialects' op definitions/format programs; no data dimension for a solver beyond what C04/C06 cover for leaves (DESIGN §5)",
     "C17": "pass x corpus-module cross product: deciding it means running each pair concretely; no symbolic dimension (DESIGN §5)",
